@@ -8,6 +8,9 @@ GROUP = "g05"
 PROP_FILE = "C05.v"
 OB_FILE = "Obligations.v"
 
+MAX_CLASSES = 5   # violation lines per kind of case (the rest is listed in the evidence notes)
+KNOWN_KW = {"DIRECT", "PROXY", "HTTP", "HTTPS", "SOCKS", "SOCKS4", "SOCKS5", "EMPTY"}
+
 KINDS = {
     # shard prefix: (label, is the property predicate meaningful for this kind)
     "scases": ("library-model(SplitHostPort/JoinHostPort/URL.Hostname,Port)", False),
@@ -59,7 +62,7 @@ def classify(kind, case):
     try:
         if kind == "pcases":
             kw, hp = first_keyword(case.get("in", ""))
-            return "kw=%s,%s" % (kw, port_class(hp))
+            return "kw=%s,%s" % (kw if kw in KNOWN_KW else "other", port_class(hp))
         if kind in ("fcases", "ecases"):
             cfg = case.get("cfg", {})
             host = case.get("host") or case.get("urlhost", "")
@@ -70,7 +73,7 @@ def classify(kind, case):
                 if v in ("<script-error>", "<non-string>"):
                     return "pac" + v
                 kw, hp = first_keyword(v or "")
-                return "pac,kw=%s,%s" % (kw, port_class(hp))
+                return "pac,kw=%s,%s" % (kw if kw in KNOWN_KW else "other", port_class(hp))
             if cfg.get("upstream"):
                 return "static-" + cfg["upstream"].split("://")[0]
             if cfg.get("upfunc"):
@@ -149,7 +152,10 @@ def run(ctx):
             classes = {}
             for kc in pb:
                 classes.setdefault(classify(kind, kc[1]), []).append(kc)
-            for cls, kcs in sorted(classes.items()):
+            ranked = sorted(classes.items(), key=lambda it: (-len(it[1]), it[0]))
+            if len(ranked) > MAX_CLASSES:
+                ctx.notes.append({"more_failing_classes_" + kind: [c for c, _ in ranked[MAX_CLASSES:]][:40]})
+            for cls, kcs in ranked[:MAX_CLASSES]:
                 kc = smallest(kcs)
                 ctx.violation("%s-violates-property:%s" % (label, cls), kc[1], True,
                               "%d cases (class %s) where the real code's own behaviour fails the C05 predicate; smallest: %s"
